@@ -165,59 +165,36 @@ def run(gaf_path, gfa=None, output=None, index=None, nodes=[], regions=[], forma
 def get_unstable(regions, index):
     """Takes the regions and returns the node IDs"""
 
-    contig = [x.split(":")[0] for x in regions]
     node_dict = {}
-    start = [x.split(":")[1].split("-")[0] for x in regions]
-    end = [x.split(":")[1].split("-")[-1] for x in regions]
-
     result = []
-    for n, c in enumerate(contig):
+    for region in regions:
+        c = region.split(":")[0]
+        start = region.split(":")[1].split("-")[0]
+        end = region.split(":")[1].split("-")[-1]
         try:
             node_list = node_dict[c]
         except KeyError:
-            node_list = list(filter(lambda x: (x[1] == c), list(index.keys())))
+            node_list = [x for x in index.keys() if x != "ref_contig" and x[1] == c]
             node_list.sort(key=lambda x: x[2])
             node_dict[c] = node_list
 
-        node = search([contig[n], start[n], end[n]], node_list)
+        node = search([c, start, end], node_list)
         if len(node) > 1:
-            logger.info("INFO: Region %s spans multiple nodes.\nThe nodes are:" % (node[n]))
+            logger.info("INFO: Region %s spans multiple nodes.\nThe nodes are:" % (region))
             for n in node:
                 logger.info("INFO: %s\t%s\t%d\t%d" % (n[0], n[1], n[2], n[3]))
 
-        result.append(node[0][0])
+        result.extend(n[0] for n in node)
 
     return result
 
 
 def search(node, node_list):
-    """Find the unstable node id from the region"""
+    """Find the unstable node ids whose interval intersects the region (both region ends inclusive)"""
 
-    s = 0
-    pos = 0
-    e = len(node_list) - 1
     q_s = int(node[1])
     q_e = int(node[2])
-    while s != e:
-        m = int((s + e) / 2)
-        if (q_s >= node_list[m][2]) and (q_s < node_list[m][3]):
-            pos = m
-            break
-        elif q_s >= node_list[m][3]:
-            s = m + 1
-        else:
-            e = m - 1
-        pos = s
-    # if there is only one node for the entire contig (case for non-reference nodes)
-    # then the above loop is not executed and we extract the only node with pos=0
-    result = [node_list[pos]]
-    while True:
-        if q_e < node_list[pos][3]:
-            break
-        pos += 1
-        result.append(node_list[pos])
-
-    return result
+    return [n for n in node_list if n[2] <= q_e and q_s < n[3]]
 
 
 # fmt: off
